@@ -72,6 +72,27 @@ Proof.
   - rewrite (eval_ext s t q1 H), (eval_ext s t q2 H). reflexivity.
 Qed.
 
+(* value and storage cell of a qualified name depend on the variables only through its support symbols *)
+Lemma eval_support s t q :
+  (forall x, In x (support q) -> env s x = env t x) -> (forall l k, heap s l k = heap t l k) -> eval s q = eval t q.
+Proof.
+  intros He Hh. induction q; simpl in *.
+  - rewrite He; auto.
+  - reflexivity.
+  - rewrite IHq by auto. destruct (eval t q) as [[ | | l | ] | | ]; auto. rewrite Hh; reflexivity.
+  - rewrite IHq1, IHq2 by (intros; apply He; apply in_or_app; auto).
+    destruct (eval t q1) as [pv | | ]; auto. destruct (eval t q2) as [kv | | ]; auto.
+    destruct pv; auto. rewrite Hh; reflexivity.
+Qed.
+
+Lemma cell_of_support s t q :
+  (forall x, In x (support q) -> env s x = env t x) -> (forall l k, heap s l k = heap t l k) -> cell_of s q = cell_of t q.
+Proof.
+  intros He Hh. destruct q; simpl in *; auto.
+  - rewrite (eval_support s t q He Hh). reflexivity.
+  - rewrite (eval_support s t q1), (eval_support s t q2); auto; intros; apply He; apply in_or_app; auto.
+Qed.
+
 Lemma read_cell_ext s t c : seq s t -> read_cell s c = read_cell t c.
 Proof. intros [A B]; destruct c; simpl; auto. Qed.
 
